@@ -22,8 +22,9 @@
     was not used before (a collision of 122 random bits is outside the model).  [AForge] lets any
     endpoint put a message with an arbitrary id on any connection (an eavesdropped or guessed id).
 
-    Ghost state ([h_org], [m_org], [issued]) records for which cell a handle was originally created;
-    no step reads it. *)
+    [h_org]/[m_org] record for which cell a handle was originally created ([None]: it stems from a
+    forged message); apart from the genuine/forged distinction in the holder count no step reads
+    them.  [issued] is ghost. *)
 From Remoc Require Import Lib.Base.
 From RecordUpdate Require Import RecordUpdate.
 
@@ -112,10 +113,13 @@ Definition st_id (x : hstate) : option N :=
 Definition st_cell (x : hstate) : option N :=
   match x with LocalCreated v | LocalReceived v _ => Some v | Remote _ => None end.
 
-(** who keeps a sender of the dropped-notification channel of id [i] alive *)
+(** who keeps a sender of the dropped-notification channel of id [i] alive: handles and messages
+    that descend from the handle the id was made for ([h_org]/[m_org] not [None]); a forged message,
+    and a handle deserialized from one, carries a channel of the forger's making *)
+Definition genuine (o : option N) : bool := match o with Some _ => true | None => false end.
 Definition holds (i : N) (hd : handle) : bool :=
-  h_live hd && match st_id (h_st hd) with Some j => j =? i | None => false end.
-Definition carries (i : N) (m : tmsg) : bool := m_id m =? i.
+  h_live hd && genuine (h_org hd) && match st_id (h_st hd) with Some j => j =? i | None => false end.
+Definition carries (i : N) (m : tmsg) : bool := genuine (m_org m) && (m_id m =? i).
 Definition holders (s : sys) (i : N) : N := len (filter (holds i) (handles s)) + len (filter (carries i) (flight s)).
 
 Definition prov_of (s : sys) (v : N) : prov :=
